@@ -7,6 +7,7 @@ import sym as S
 import fc
 import anchors as A
 import census as C
+import re
 from sym import some, NONE, lit_int, mk_field, mk_payload
 
 TRANSPARENT = ("as_ref", "as_deref", "as_str", "deref", "as_slice")
@@ -205,3 +206,48 @@ def check_mapping_wiring(fx, rep, rule):
             good = len(flds) == 1 and list(flds.values())[0] == mk_field(slf, MF) and v[1].endswith("ProguardRecordIter")
     rep.check(rule, "%s/mapping-iter" % rule, good, loc=F.short_file(b["sp"]), found=found,
               expected="ProguardRecordIter over exactly self.source (no condition, no effect)")
+
+
+def check_structural_eq(fx, rep, rule, type_suffixes):
+    """`==` on the listed public value types is the derived, field-by-field comparison: a type that implements PartialEq also has
+    the compiler's `StructuralPartialEq` marker, which only `#[derive(PartialEq)]` can emit (it is not nameable on stable). A
+    hand-written `eq` is accepted when it is visibly the same comparison (a struct: the conjunction of `self.f == other.f` over all
+    fields); any other hand-written `eq` is reported - what two values "being the same answer" means is then up to that function."""
+    impls = fx.items.get("proguard", {}).get("impls", [])
+    base = lambda s: re.sub(r"<.*", "", s or "")
+    n = 0
+    for suf in type_suffixes:
+        a = fx.adt("proguard::" + suf)
+        if a is None:
+            A.one(rep, rule, "public type %s" % suf, [])
+            continue
+        mine = [im for im in impls if base(im.get("self")) == suf]
+        has_eq = [im for im in mine if (im.get("trait") or "") == "std::cmp::PartialEq"]
+        if not has_eq:
+            continue
+        n += 1
+        derived = any((im.get("trait") or "") == "std::marker::StructuralPartialEq" for im in mine) and all(im.get("exp") for im in has_eq)
+        if derived:
+            rep.ok(rule, "%s/structural-eq/%s" % (rule, suf), loc=F.short_file(has_eq[0]["sp"]), found="derived PartialEq", nontrivial=False)
+            continue
+        good, found = False, "hand-written PartialEq"
+        cands = A.method(fx, suf, "eq", trait="PartialEq")
+        if len(cands) == 1 and len(a["variants"]) == 1:
+            b = fx.bodies[cands[0]]
+            names = [prm["pat"]["name"] for prm in b["params"] if prm.get("pat") and prm["pat"].get("k") == "Bind"]
+            try:
+                res = S.Sym(fx).eval_body(b)
+            except S.Undecidable as e:
+                res, found = [], "hand-written PartialEq: %s" % e.msg
+            if len(names) == 2 and res:
+                fields = [f_["name"] for f_ in a["variants"][0]["fields"]]
+                x, y = ("in", names[0]), ("in", names[1])
+
+                def ref(o):
+                    return S.TRUE if all(o(("eq", S.mk_field(x, f_), S.mk_field(y, f_))) for f_ in fields) else S.FALSE
+                bad, _ = fc.compare_paths(res, ref, lambda st, out: out[1])
+                good = not bad
+                found = "hand-written PartialEq comparing %s" % ("every field" if good else "something else than every field")
+        rep.check(rule, "%s/structural-eq/%s" % (rule, suf), good, loc=F.short_file(has_eq[0]["sp"]), found=found,
+                  expected="`==` on %s compares every field (derived, or visibly the same)" % suf)
+    return n
